@@ -7,6 +7,7 @@ import (
 	"crypto/tls"
 	"crypto/x509"
 	"encoding/json"
+	"errors"
 	"fmt"
 	"os"
 	"strconv"
@@ -72,6 +73,9 @@ func main() {
 	}
 	if c.GRPCServer {
 		sc.GRPCServer = plugin.DefaultGRPCServer
+	}
+	if c.TLS == "provider-fail" {
+		sc.TLSProvider = func() (*tls.Config, error) { return nil, errors.New("no certificate available") }
 	}
 	if c.TLS == "provider" {
 		sc.TLSProvider = func() (*tls.Config, error) {
